@@ -34,10 +34,11 @@ const (
 	fGarbage    = "garbage-frame"
 	fUnknownTag = "unknown-tag"
 	fWrongType  = "wrong-reply-type"
+	fShortBody  = "right-tag-and-type-body-cut-short" // a well delimited frame whose body ends inside its first field
 	fTinySize   = "size-field-3"
 )
 
-var faultKinds = []string{fClose, fHalfClose, fGarbage, fUnknownTag, fWrongType, fTinySize}
+var faultKinds = []string{fClose, fHalfClose, fGarbage, fUnknownTag, fWrongType, fTinySize, fShortBody}
 
 type srvState struct {
 	peer      *rawpeer.Peer
@@ -254,6 +255,20 @@ func (s *srvState) reply(i int) {
 			s.peer.Send(refcodec.New(refcodec.Rflush, m.Tag))
 		case fTinySize:
 			s.peer.SendRaw([]byte{3, 0, 0, 0, 7, 0, 0})
+		case fShortBody:
+			// the pending call's own tag and the reply type it waits for, but
+			// the body ends after its first bytes: a count survives, what it
+			// counts does not (a reply without a body gets one byte too many)
+			n := 7 + 3
+			if n >= len(b) {
+				n = len(b) - 1
+			}
+			cut := append([]byte{}, b[:n]...)
+			if n < 8 {
+				cut = append(append([]byte{}, b[:7]...), 0x5a)
+			}
+			cut[0], cut[1], cut[2], cut[3] = byte(len(cut)), 0, 0, 0
+			s.peer.SendRaw(cut)
 		}
 		return
 	}
@@ -548,7 +563,7 @@ func generalize(s string) string {
 }
 
 func run(ctx *fw.Ctx, rep *fw.Report) {
-	rep.Rule = "(i) 2-3 goroutines x 1-2 calls (GetAttr, Walk, Close, Remove, GetXattr of an empty value, and UnlinkAt answered with a request-unique errno) on one real p9.Client against a scripted server whose actions (read the next request / answer any pending request) are a free data choice, i.e. every reply order incl. answering before the next request is read; all thread interleavings with at most 1 (quick) / 2 (thorough) preemptions, without reduction (the client's hand-off logic alone has more than 10^5 Mazurkiewicz traces for two calls, so unbounded DPOR does not terminate in budget); (ii) the same sessions with one fault (close, half frame then close, garbage frame, unknown tag, wrong reply type, size field 3) in place of the k-th reply for every k; (iv) two-call sessions broken by a close / half frame / garbage frame, followed by two calls of a SECOND client of the same process on its own healthy connection, with recycling pools (handing out the most recently / the least recently put object: both policies): the second client's calls must succeed; (v) histories with garbage collections as EVENTS: one goroutine, lock-step, all sequences up to 4 (quick) / 5 (thorough) events over {walk, walk answered ENOENT, close k, drop k (forget the File unclosed), gc, use k} with a gc in them; finalizers of client Files run exactly at the gc events (real collections decide what is unreachable); server-side oracle as above plus 'no request names a fid the server does not have bound', client side: Files neither closed nor dropped keep working; (iii) allocator: explicit-state BFS over all Get/Put sequences of the tag/fid allocator and 2-thread schedules; oracle at the server: outstanding tags pairwise distinct and never NOTAG, a new fid is never one the server has bound or is binding (fault-free sessions), at the callers: own token returned, errors only after a fault, no caller blocked at the end (deadlock detection); distinct = distinct (results, reply order) outcomes"
+	rep.Rule = "(i) 2-3 goroutines x 1-2 calls (GetAttr, Walk, Close, Remove, GetXattr of an empty value, and UnlinkAt answered with a request-unique errno) on one real p9.Client against a scripted server whose actions (read the next request / answer any pending request) are a free data choice, i.e. every reply order incl. answering before the next request is read; all thread interleavings with at most 1 (quick) / 2 (thorough) preemptions, without reduction (the client's hand-off logic alone has more than 10^5 Mazurkiewicz traces for two calls, so unbounded DPOR does not terminate in budget); (ii) the same sessions with one fault (close, half frame then close, garbage frame, unknown tag, wrong reply type, size field 3, the right tag and type with the body cut short after its first bytes) in place of the k-th reply for every k; (iv) two-call sessions broken by a close / half frame / garbage frame, followed by two calls of a SECOND client of the same process on its own healthy connection, with recycling pools (handing out the most recently / the least recently put object: both policies): the second client's calls must succeed; (v) histories with garbage collections as EVENTS: one goroutine, lock-step, all sequences up to 4 (quick) / 5 (thorough) events over {walk, walk answered ENOENT, close k, drop k (forget the File unclosed), gc, use k} with a gc in them; finalizers of client Files run exactly at the gc events (real collections decide what is unreachable); server-side oracle as above plus 'no request names a fid the server does not have bound', client side: Files neither closed nor dropped keep working; (iii) allocator: explicit-state BFS over all Get/Put sequences of the tag/fid allocator and 2-thread schedules; oracle at the server: outstanding tags pairwise distinct and never NOTAG, a new fid is never one the server has bound or is binding (fault-free sessions), at the callers: own token returned, errors only after a fault, no caller blocked at the end (deadlock detection); distinct = distinct (results, reply order) outcomes"
 	rep.Assumptions = append(rep.Assumptions, "independence classes of DESIGN §2.2", "fid freshness is asserted in sessions without protocol faults only (DESIGN §4.0)", "GC finalizers of client files run only at the gc events of part (v); elsewhere they are off (DESIGN §6)")
 	shapes := [][][]string{
 		{{"getattr"}, {"getattr"}},
